@@ -15,6 +15,7 @@ TREES: dict[str, list[str]] = {
     "T5b": ["P", "P.A", "P.A.X", "P.B", "P.B.Y"],
     "T5c": ["P", "P.A", "P.A.X", "P.A.X.Y", "P.B"],
     "T5d": ["P", "P.A", "P.B", "Q", "Q.L"],
+    "T5e": ["P", "P.A", "P.A.X", "P.B", "Q"],
     "T6a": ["P", "P.A", "P.A.X", "P.B", "P.B.Y", "P.C"],
     "T6b": ["P", "P.A", "P.A.X", "P.A.Z", "P.B", "P.C"],
     "T6c": ["P", "P.A", "P.A.X", "P.B", "Q", "Q.L"],
